@@ -86,6 +86,9 @@ func TestEntry(t *testing.T) {
 		code = 0
 	case "selftest":
 		code = harness.SelfTestMain(t, root, args[1:])
+	case "hash":
+		n, _ := strconv.Atoi(args[2])
+		code = harness.HashMain(t, harness.Registry[args[1]], seedFromEnv(), "quick", n)
 	case "israce":
 		code = 1
 		if p := harness.Registry[args[1]]; p != nil && p.Race {
